@@ -31,6 +31,10 @@ pub struct ProverRun {
     pub ctx: usize,
     /// seed of the healthy external RNG stream of this run
     pub stream: u64,
+    /// if set, the run is served this failing stream instead; only the within-proof oracles apply
+    /// to it ("each message is hidden by its own nonce" holds for whatever RNG the prover is handed)
+    #[serde(default)]
+    pub failing: Option<RngMode>,
 }
 
 #[derive(Clone, Debug, Serialize, Deserialize)]
@@ -52,7 +56,11 @@ fn execute(sc: &Scenario, st: &mut RunStats) -> Vec<Violation> {
         let subj = &sc.subjects[run.subject];
         let b = &built[run.subject];
         let seeded = subj.wit.seed_nonce.is_some();
-        let obs = match observe_prove(&sc.ctxs[run.ctx], &b.params, &b.statement, &b.witness, &RngMode::Healthy(run.stream)) {
+        let mode = run.failing.clone().unwrap_or(RngMode::Healthy(run.stream));
+        if run.failing.is_some() {
+            st.fault(&format!("rng_{}", mode.kind()));
+        }
+        let obs = match observe_prove(&sc.ctxs[run.ctx], &b.params, &b.statement, &b.witness, &mode) {
             Ok(ProveOutcome::Proved(o)) => o,
             Ok(_) => {
                 out.push(Violation::new("harness:prover_failed", "setup", format!("history[{}] did not produce a proof", hi)));
@@ -144,6 +152,10 @@ fn execute(sc: &Scenario, st: &mut RunStats) -> Vec<Violation> {
             }
         } else {
             st.probe("unseeded_run");
+        }
+        if run.failing.is_some() {
+            st.probe("within_proof_oracles_under_failing_rng");
+            continue;
         }
         // across the history: RNG-derived nonces never repeat between runs with different streams
         for (n, v) in obs.nonces.rng_derived(seeded) {
@@ -239,7 +251,12 @@ impl Check for C13 {
         let ctxs: Vec<Context> = (0..rng.range(1, 2)).map(|_| Context::generate(rng)).collect();
         let n_hist = rng.range(12, if tier == Tier::Quick { 60 } else { 120 }) as usize;
         let history = (0..n_hist)
-            .map(|_| ProverRun { subject: rng.usize_below(n_subj), ctx: rng.usize_below(ctxs.len()), stream: rng.next_u64() })
+            .map(|_| ProverRun {
+                subject: rng.usize_below(n_subj),
+                ctx: rng.usize_below(ctxs.len()),
+                stream: rng.next_u64(),
+                failing: if rng.chance(1, 6) { Some(crate::checks::c01::gen_rng_mode(rng, false)) } else { None },
+            })
             .collect();
         Scenario { subjects, ctxs, history }
     }
@@ -285,6 +302,9 @@ impl Check for C13 {
     }
 
     fn required_probes(&self, _tier: Tier) -> Vec<&'static str> {
-        vec!["seeded_run", "unseeded_run", "same_statement_reproved_under_other_stream", "same_seed_other_statement"]
+        vec![
+            "seeded_run", "unseeded_run", "same_statement_reproved_under_other_stream", "same_seed_other_statement",
+            "within_proof_oracles_under_failing_rng",
+        ]
     }
 }
